@@ -293,3 +293,5 @@ theorem derive_fields (rs : List Rule) (f : List (String √ó Val)) (e : String ‚Ü
     exact ‚ü®rfl, rfl‚ü©
 
 end Lemmas.Config
+
+deriving instance DecidableEq for Except
